@@ -18,11 +18,11 @@ Local Open Scope string_scope.
 
 (* The Section variables of the generated file (the calls that are not translated) are instantiated
    by position below; these lines pin their names, so a change of callee cannot go unnoticed. *)
-Arguments CheckAndSet_Begin error_T time_Now fmt_Errorf _ _ : assert.
+Arguments CheckAndSet_Begin error_T fmt_Errorf time_Now _ _ : assert.
 Arguments MultiRSW_BeginRead error_T NewErrMRSWConflict _ : assert.
 Arguments MultiRSW_BeginWrite error_T NewErrMRSWConflict fmt_Sprintf _ _ : assert.
 Arguments MultiRSW_UpgradeToWriter error_T NewErrMRSWConflict fmt_Sprintf _ _ : assert.
-Arguments ReadyTarget_Subscribe T chan_T make_chan_T T_leb _ _ : assert.
+Arguments ReadyTarget_Subscribe T chan_T T_leb make_chan_T _ _ : assert.
 Arguments ReadyTarget_Unsubscribe T chan_T chan_T_eqb _ _ : assert.
 Arguments ReadyTarget_Signal T chan_T T_leb _ _ : assert.
 Arguments ReadyTarget_Reset T chan_T zero_T _ : assert.
@@ -47,8 +47,8 @@ Section Cas.
   Variable errorf : string -> E.
 
   Lemma gen_cas_Begin_eq : forall s start t o,
-    gen_core (fst (CheckAndSet_Begin E now errorf (rep_cas s start) o)) = cas_core (fst (cas_step_obs s (CBegin t o))) /\
-    obs_of_err (snd (CheckAndSet_Begin E now errorf (rep_cas s start) o)) = snd (cas_step_obs s (CBegin t o)).
+    gen_core (fst (CheckAndSet_Begin E errorf now (rep_cas s start) o)) = cas_core (fst (cas_step_obs s (CBegin t o))) /\
+    obs_of_err (snd (CheckAndSet_Begin E errorf now (rep_cas s start) o)) = snd (cas_step_obs s (CBegin t o)).
   Proof. intros [st ow hs] start t o; unf_cas; split; gen_cases. Qed.
 
   Lemma gen_cas_End_eq : forall s start t,
@@ -138,7 +138,7 @@ Ltac loop_step LOOP := unfold LOOP;
   fold LOOP.
 
 Lemma gen_rt_Subscribe_eq : forall s tg,
-  let r := ReadyTarget_Subscribe N nat (r_next s) N.leb (rep_rt s) tg in
+  let r := ReadyTarget_Subscribe N nat N.leb (r_next s) (rep_rt s) tg in
   fst (fst r) = rep_rt (rt_step s (RSub tg)) /\ snd (fst r) = r_next s /\
   (closes (snd r) ++ r_closed s)%list = r_closed (rt_step s (RSub tg)).
 Proof.
@@ -198,8 +198,8 @@ Lemma gen_rsync_eq : forall (E : Type) (now : Z) (errorf : string -> E)
     (mkerr : string -> option E) (sprintf : string -> Z -> string),
   (forall m, mkerr m <> None) ->
   (forall s start t o,
-     gen_core (fst (CheckAndSet_Begin E now errorf (rep_cas s start) o)) = cas_core (fst (cas_step_obs s (CBegin t o))) /\
-     obs_of_err (snd (CheckAndSet_Begin E now errorf (rep_cas s start) o)) = snd (cas_step_obs s (CBegin t o))) /\
+     gen_core (fst (CheckAndSet_Begin E errorf now (rep_cas s start) o)) = cas_core (fst (cas_step_obs s (CBegin t o))) /\
+     obs_of_err (snd (CheckAndSet_Begin E errorf now (rep_cas s start) o)) = snd (cas_step_obs s (CBegin t o))) /\
   (forall s start t,
      gen_core (CheckAndSet_End (rep_cas s start)) = cas_core (fst (cas_step_obs s (CEnd t))) /\
      Ok = snd (cas_step_obs s (CEnd t))) /\
@@ -224,7 +224,7 @@ Lemma gen_rsync_eq : forall (E : Type) (now : Z) (errorf : string -> E)
      m_core (absorb_m s (fst r) []) = m_core (fst (mrsw_step_obs s (MUpgrade t o))) /\
      obs_of_res (snd r) = snd (mrsw_step_obs s (MUpgrade t o))) /\
   (forall s tg,
-     let r := ReadyTarget_Subscribe N nat (r_next s) N.leb (rep_rt s) tg in
+     let r := ReadyTarget_Subscribe N nat N.leb (r_next s) (rep_rt s) tg in
      fst (fst r) = rep_rt (rt_step s (RSub tg)) /\ snd (fst r) = r_next s /\
      (closes (snd r) ++ r_closed s)%list = r_closed (rt_step s (RSub tg))) /\
   (forall s ch, ReadyTarget_Unsubscribe N nat Nat.eqb (rep_rt s) ch = rep_rt (rt_step s (RUnsub ch))) /\
